@@ -215,3 +215,34 @@ def run_noabsorb(ctx):
     else:
         res.ok("noabsorb", lib.body(target).where(), "no callers")
     return res
+
+
+def run_whounion(ctx):
+    res = RuleResult("R-WHOUNION", "a union type value (Type::Multi) is constructed only by Type::concat, the one place that keeps unions "
+                                   "canonical (no `any` / `!` member, no nested union, no one-member union): nothing else - including what "
+                                   "var_type! / #[export] expand to in this crate - wraps a member set by hand")
+    lib = ctx.facts.lib
+    own = for_crate(lib)
+    concat = "variable::r#type::Type::concat"
+    if not res.anchor(lib.body(concat) is not None, concat):
+        return res
+    n = 0
+    for b in sorted(lib.bodies.values(), key=lambda x: x.id):
+        if b.id == "<variable::r#type::Type as std::clone::Clone>::clone":
+            continue
+        sites = [s.get("line") for _, s in aggregates(b, "variable::r#type::Type") if s["rv"].get("variant") == "Multi"]
+        sites += [c.line for c in b.calls if re.match(r"<variable::r#type::Type as std::convert::From<variable::multi_type::MultiType>>::from$", c.full)
+                  or re.match(r"<variable::multi_type::MultiType as std::convert::Into<variable::r#type::Type>>::into$", c.full)]
+        if not sites:
+            continue
+        n += len(sites)
+        key = "whounion:%s" % base(b.id)
+        if own.of(b.id) == frozenset({concat}):
+            res.ok(key, b.where(sites[0]), "%d construction(s) inside Type::concat" % len(sites))
+        else:
+            res.bad(key, "%s builds Type::Multi directly: the member set is not normalised by Type::concat, so a union holding `any`, `!`, "
+                         "a nested union or a single member can exist - it prints as text that the type parser reads back as a different "
+                         "(the normalised) type, and equality / matches treat it differently from the type a script can write"
+                    % base(b.id), b.where(sites[0]))
+    res.floor(n, 1, "union_constructions")
+    return res
